@@ -519,6 +519,18 @@ def part_clients(ctx):
                             hit.add("rz"); report("iszero refinement (false branch) excludes a non-zero value",
                                                   f"refine_iszero_false({ra}) = {r2!r}", {"a": str(a)}, f"clients:refine_iszero:{ra}")
             for j, (rb, vb) in enumerate(pr):
+                try:
+                    r2 = mod.refine_eq_vars(va, vb)
+                except Exception:
+                    r2 = None
+                n += 1
+                if r2 is not None and "re" not in hit:
+                    mb = set(mem[j])
+                    for a in mem[i]:
+                        if a in mb and not _in_range(a, r2):
+                            hit.add("re"); report("eq refinement (true branch, two variables) excludes a word both ranges denote",
+                                                  f"refine_eq_vars({ra}, {rb}) = {r2!r}", {"a": str(a)}, f"clients:refine_eq:{ra}:{rb}")
+                            break
                 for nm, fn, chk in (("add", mod.add_elim_cond, lambda a, b: ev("iszero", ev("lt", ev("add", a, b), a))),
                                     ("sub", mod.sub_elim_cond, lambda a, b: ev("iszero", ev("gt", ev("sub", a, b), a)))):
                     try:
@@ -564,6 +576,7 @@ def part_clients(ctx):
                      "er (refine_compare_left r l o t) ++ er (refine_compare_right r l o t)) [true; false]) "
                      '["lt"%string; "gt"%string; "slt"%string; "sgt"%string]) ' + coqrun.zlist(rlits) + ") RS)]")
         exprs.append("[hashl (flat_map (fun r => er (refine_iszero_false r)) RS)]")
+        exprs.append("[hashl (flat_map (fun p => er (refine_eq_vars (fst p) (snd p))) (list_prod RS RS))]")
         outs = coqrun.eval_zlists(imports, exprs, "c14clients", shard=7)
         pr = [_vr_py(r) for r in ranges]
 
@@ -603,8 +616,9 @@ def part_clients(ctx):
                         seq += sr(lambda: mod.refine_compare_left(mod._R(r), l, o, t_)) + sr(lambda: mod.refine_compare_right(mod._R(r), l, o, t_))
         py.append(_hash(seq))
         py.append(_hash([x for r in pr for x in sr(lambda: mod.refine_iszero_false(mod._R(r)))]))
+        py.append(_hash([x for a in pr for b in pr for x in sr(lambda: mod.refine_eq_vars(a, b))]))
         names = ["add_elim_cond", "sub_elim_cond", "_range_excludes_zero", "signextend_noop_cond", "range_cmp_kernel",
-                 "refine_compare_left/right", "refine_iszero_false"]
+                 "refine_compare_left/right", "refine_iszero_false", "refine_eq_vars"]
         for nm, o, p_ in zip(names, outs, py):
             if o[0] != p_:
                 ctx.violation("correspondence-broken", f"py2coq model of sliced decision code {nm} disagrees with CPython", {"fn": nm})
